@@ -3,6 +3,7 @@ package main
 // load.go: load /repo packages (working tree, -tags verif) and build go/ssa.
 
 import (
+	"os/exec"
 	"fmt"
 	"go/ast"
 	"go/token"
@@ -35,6 +36,9 @@ type Program struct {
 
 const contractFileName = "zz_verif_contracts.go"
 
+// scratch copies of dependency modules made by loadProgram; removed by main on exit
+var extScratchDirs []string
+
 // implSuffix marks the key of an "impl" view of a function's contract (see parseContracts).
 const implSuffix = "~impl"
 
@@ -48,6 +52,56 @@ func loadProgram(repo string, patterns []string) (*Program, error) {
 		Fset:       fset,
 		Env:        env,
 		BuildFlags: []string{"-tags=verif"},
+	}
+	// Dependency packages under contract (extspec/<import path>/): Go refuses overlays inside the module cache, so
+	// the module is copied to a scratch directory together with its contract file and the load uses a scratch copy
+	// of /repo's go.mod (-modfile) with a replace directive pointing there. Neither /repo nor the cache is written.
+	ext := extSpecDir()
+	var replaces []string
+	scratch := ""
+	for _, pat := range patterns {
+		if strings.HasPrefix(pat, ".") {
+			continue
+		}
+		b, err := os.ReadFile(filepath.Join(ext, filepath.FromSlash(pat), contractFileName))
+		if err != nil {
+			continue
+		}
+		cmd := exec.Command("go", "list", "-m", "-f", "{{.Dir}}", pat)
+		cmd.Dir = repo
+		cmd.Env = env
+		out, err := cmd.Output()
+		if err != nil {
+			return nil, fmt.Errorf("cannot locate dependency module %s (only packages at a module root are supported): %v", pat, err)
+		}
+		if scratch == "" {
+			scratch, err = os.MkdirTemp("", "govc-extmod-")
+			if err != nil {
+				return nil, err
+			}
+			extScratchDirs = append(extScratchDirs, scratch)
+		}
+		dst := filepath.Join(scratch, filepath.Base(pat))
+		if out, err := exec.Command("cp", "-r", strings.TrimSpace(string(out)), dst).CombinedOutput(); err != nil {
+			return nil, fmt.Errorf("copying %s: %v %s", pat, err, out)
+		}
+		exec.Command("chmod", "-R", "u+w", dst).Run()
+		if err := os.WriteFile(filepath.Join(dst, contractFileName), b, 0o644); err != nil {
+			return nil, err
+		}
+		replaces = append(replaces, fmt.Sprintf("replace %s => %s", pat, dst))
+	}
+	if len(replaces) > 0 {
+		gm, err := os.ReadFile(filepath.Join(repo, "go.mod"))
+		if err != nil {
+			return nil, err
+		}
+		mf := filepath.Join(scratch, "go.mod")
+		os.WriteFile(mf, []byte(string(gm)+"\n"+strings.Join(replaces, "\n")+"\n"), 0o644)
+		if gs, err := os.ReadFile(filepath.Join(repo, "go.sum")); err == nil {
+			os.WriteFile(filepath.Join(scratch, "go.sum"), gs, 0o644)
+		}
+		cfg.BuildFlags = append(cfg.BuildFlags, "-modfile="+mf)
 	}
 	pkgs, err := packages.Load(cfg, patterns...)
 	if err != nil {
